@@ -39,19 +39,73 @@ Theorem C09_every_exit_releases : forall n evs s r o,
 Proof. exact gate_every_exit_releases. Qed.
 Print Assumptions C09_every_exit_releases.
 
-(* a render cancelled while waiting never was and never is past the gate *)
+(* a render that got the context error (its context ended while it was waiting,
+   or was over when it called) never was and never is past the gate *)
 Theorem C09_cancel_takes_no_slot : forall n evs s r,
   reach n evs = Some s -> In r (cancelled_of evs) ->
   ~ In r (entered n evs) /\ ~ In r (inflight s) /\ ~ In r (waiting s).
 Proof. exact gate_cancel_takes_no_slot. Qed.
 Print Assumptions C09_cancel_takes_no_slot.
 
-(* only a waiting render can be cancelled, and the cancellation leaves the set in flight alone *)
+(* only a waiting render whose context is over can get the context error, and
+   that leaves the set in flight alone *)
 Theorem C09_cancel_step : forall s r s',
   gate_step s (Cancel r) = Some s' ->
-  In r (waiting s) /\ inflight s' = inflight s /\ waiting s' = del r (waiting s).
+  In r (waiting s) /\ In r (ended s) /\ inflight s' = inflight s /\ waiting s' = del r (waiting s).
 Proof. exact gate_cancel_step. Qed.
 Print Assumptions C09_cancel_step.
+
+(* over every accepted history the context error goes only to callers whose
+   context is over (they were started with such a context, or it ended later) *)
+Theorem C09_context_error_needs_ended_context : forall n evs s r,
+  reach n evs = Some s -> In r (cancelled_of evs) -> In r (ended_of evs).
+Proof. exact gate_cancel_needs_ended. Qed.
+Print Assumptions C09_context_error_needs_ended_context.
+
+(* a waiting render whose context is over can return its error in every state
+   (promptly: nothing else has to happen first) and takes nothing with it *)
+Theorem C09_ended_waiter_returns : forall n evs s r,
+  reach n evs = Some s -> In r (waiting s) -> In r (ended s) ->
+  exists s', gate_step s (Cancel r) = Some s' /\
+             inflight s' = inflight s /\ waiting s' = del r (waiting s) /\ cap s' = cap s.
+Proof. exact gate_ended_waiter_returns. Qed.
+Print Assumptions C09_ended_waiter_returns.
+
+(* Render called with a context that is already over: the error (gate exactly as
+   before the call) is always possible; entering is possible exactly when a slot
+   is free (Go's select may choose either) and makes it an ordinary render in
+   flight; at a full gate only the error is possible; it cannot leave without
+   having entered *)
+Theorem C09_ended_start : forall n evs s r,
+  0 < n -> reach n evs = Some s -> ~ In r (started evs) ->
+  exists s1, gate_step s (Start r true) = Some s1 /\
+    inflight s1 = inflight s /\ waiting s1 = waiting s ++ [r] /\ In r (ended s1) /\
+    (exists s2, gate_step s1 (Cancel r) = Some s2 /\
+                inflight s2 = inflight s /\ waiting s2 = waiting s /\ cap s2 = cap s) /\
+    (length (inflight s) < n ->
+       exists s2, gate_step s1 (Enter r) = Some s2 /\
+                  inflight s2 = inflight s ++ [r] /\ waiting s2 = waiting s) /\
+    (n <= length (inflight s) -> gate_step s1 (Enter r) = None) /\
+    (forall o, gate_step s1 (Leave r o) = None).
+Proof. exact gate_ended_start. Qed.
+Print Assumptions C09_ended_start.
+
+(* the context of a waiting render ends while a render in flight hands its slot
+   back: the two events commute; the waiter then either returns the error (the
+   slot is free) or takes the slot (as many in flight as before) - nothing else *)
+Theorem C09_cancel_release_race : forall n evs s rw ri o,
+  reach n evs = Some s -> In rw (waiting s) -> In ri (inflight s) ->
+  exists s1, run (Some s) [CtxEnd rw; Leave ri o] = Some s1 /\
+             run (Some s) [Leave ri o; CtxEnd rw] = Some s1 /\
+    inflight s1 = del ri (inflight s) /\ waiting s1 = waiting s /\
+    (exists s2, gate_step s1 (Cancel rw) = Some s2 /\
+                inflight s2 = del ri (inflight s) /\ waiting s2 = del rw (waiting s)) /\
+    (exists s2, gate_step s1 (Enter rw) = Some s2 /\
+                inflight s2 = del ri (inflight s) ++ [rw] /\ waiting s2 = del rw (waiting s) /\
+                length (inflight s2) = length (inflight s)) /\
+    (forall o', gate_step s1 (Leave rw o') = None).
+Proof. exact gate_cancel_release_race. Qed.
+Print Assumptions C09_cancel_release_race.
 
 (* limit disabled: nobody ever waits; every started render that has not left is in flight *)
 Theorem C09_disabled_never_waits : forall evs s,
